@@ -302,6 +302,11 @@ pub fn assemble(p: &ProgSpec) -> (RomImage, ProgInfo) {
     for bank in 1..rom.banks() {
         for slot in 0..8usize {
             let mut a = Asm::new(0x4000 + slot * 0x40);
+            if slot == 0 {
+                // two one-byte instructions first: the fall-through routine may use them as operand bytes
+                a.b([0x00u8, 0x3c, 0x04, 0x0c, 0x14, 0x1c, 0x24, 0x2c][bank % 8]);
+                a.b([0x2fu8, 0x37, 0x3f, 0x07, 0x0f, 0x17, 0x1f, 0x00][bank % 8]);
+            }
             let mut x = (p.far_seed as u64) << 16 | (bank as u64) << 8 | slot as u64;
             let mut body = Vec::new();
             for _ in 0..(2 + (bank + slot) % 6) {
@@ -322,8 +327,16 @@ pub fn assemble(p: &ProgSpec) -> (RomImage, ProgInfo) {
             put(&mut rom, bank * 0x4000 + slot * 0x40, &a.bytes);
         }
     }
-    // a bank-0 routine without terminator that runs into the switchable bank
+    // a bank-0 routine without terminator that runs into the switchable bank; in
+    // three of four programs its last instruction straddles 0x3FFF/0x4000 (its
+    // operand bytes then come from whichever bank is mapped)
     put(&mut rom, 0x3ff8, &[0x3c, 0x04, 0x0c, 0x14, 0x1c, 0x24, 0x2c, 0x3c]);
+    match p.far_seed & 3 {
+        1 => put(&mut rom, 0x3fff, &[0x06]),       // LD B,n    : n at 0x4000, continues at 0x4001
+        2 => put(&mut rom, 0x3ffe, &[0x01, 0x5a]), // LD BC,nn  : high byte at 0x4000, continues at 0x4001
+        3 => put(&mut rom, 0x3fff, &[0x11]),       // LD DE,nn  : nn at 0x4000/0x4001, continues at 0x4002
+        _ => {}
+    }
     // RAM routine images (copied by the init code)
     let mut images: Vec<Vec<u8>> = Vec::new();
     for (_, k) in RAM_ROUTINES {
